@@ -272,7 +272,7 @@ Vector Spherical_Coordinates(double r, double theta, double phi)
 Vector Spherical_Coordinates(double r, double theta, double phi, const Vector& axis)
 {
 	libphysica::Vector ev = axis.Normalized();
-	double aux			  = sqrt(ev[0] * ev[0] + ev[1] * ev[1]);
+	double aux			  = std::hypot(ev[0], ev[1]);	// (the squares underflow for axes within 1e-154 of +-z)
 	if(axis.Norm() == 0.0 || (aux == 0.0 && ev[2] > 0.0))
 		return Spherical_Coordinates(r, theta, phi);
 	else if(aux == 0.0)
@@ -291,8 +291,12 @@ Vector Spherical_Coordinates(double r, double theta, double phi, const Vector& a
 		double cos_phi	 = cos(phi);
 		double sin_phi	 = sin(phi);
 
-		libphysica::Vector unit_vector({cos_theta * ev[0] + sin_theta / aux * (ev[0] * ev[2] * cos_phi - ev[1] * sin_phi),
-										cos_theta * ev[1] + sin_theta / aux * (ev[1] * ev[2] * cos_phi + ev[0] * sin_phi),
+		// Unit vector of the axis' projection onto the xy plane (the quotients stay finite however small aux is).
+		double tx = ev[0] / aux;
+		double ty = ev[1] / aux;
+
+		libphysica::Vector unit_vector({cos_theta * ev[0] + sin_theta * (tx * ev[2] * cos_phi - ty * sin_phi),
+										cos_theta * ev[1] + sin_theta * (ty * ev[2] * cos_phi + tx * sin_phi),
 										cos_theta * ev[2] - aux * cos_phi * sin_theta});
 		return r * unit_vector;
 	}
